@@ -44,6 +44,9 @@ func (d *DBFT[H]) sendPrepareRequest(force bool) {
 
 	d.PreparationPayloads[d.MyIndex] = msg
 	d.broadcast(msg)
+	// Responses and commits could be received before our own request was
+	// sent, validate them against it.
+	d.updateExistingPayloads(msg)
 
 	d.prepareSentTime = d.Timer.Now()
 
